@@ -130,3 +130,102 @@ func runC20Late(w *core.WorkerCtx, k int) *core.CaseResult {
 	}
 	return res
 }
+
+// A reload changes a job's metric_relabel_configs and params (not its client settings) BEFORE a target of
+// that job is probed for the first time: the probe must use the new params, and the estimate must be the
+// kept count under the NEW rules ("the sample counts of the successful probe ... after metric relabeling").
+const c20ReloadQuick, c20ReloadThorough = 2, 12
+
+func runC20Reload(w *core.WorkerCtx, k int) *core.CaseResult {
+	r := core.NewRng(w.Seed, 0xC20B, uint64(k))
+	res := &core.CaseResult{Sig: fmt.Sprintf("reload-before-first-probe-%d", k), Nontrivial: true}
+	var mu sync.Mutex
+	queries := map[string][]string{} // id -> module values seen
+	nKeep, nA, nB := 2+r.Intn(4), 1+r.Intn(4), 1+r.Intn(4)
+	srv := httptest.NewServer(http.HandlerFunc(func(rw http.ResponseWriter, rq *http.Request) {
+		mu.Lock()
+		id := rq.URL.Query().Get("id")
+		queries[id] = append(queries[id], rq.URL.Query().Get("module"))
+		mu.Unlock()
+		rw.Header().Set("Content-Type", "text/plain; version=0.0.4")
+		for i := 0; i < nKeep; i++ {
+			fmt.Fprintf(rw, "keep_me{i=\"%d\"} 1\n", i)
+		}
+		for i := 0; i < nA; i++ {
+			fmt.Fprintf(rw, "drop_a{i=\"%d\"} 1\n", i)
+		}
+		for i := 0; i < nB; i++ {
+			fmt.Fprintf(rw, "drop_b{i=\"%d\"} 1\n", i)
+		}
+	}))
+	defer srv.Close()
+	addr := srv.Listener.Addr().(*net.TCPAddr).String()
+	cfg := func(module, dropRe string) string {
+		return fmt.Sprintf("global:\n  scrape_interval: 15s\n  scrape_timeout: 10s\nscrape_configs:\n- job_name: jr\n  params:\n    module: [%s]\n  metric_relabel_configs:\n  - source_labels: [__name__]\n    regex: %s\n    action: drop\n", module, dropRe)
+	}
+	p := newPipeline(1 + r.Intn(4))
+	defer p.close()
+	if err := p.cm.ReloadFromRaw([]byte(cfg("big", "drop_a"))); err != nil {
+		res.Inconcl = "reload: " + err.Error()
+		return res
+	}
+	tgt := func(id string) map[string]string { return map[string]string{"__address__": addr, "__param_id": id} }
+	if err := p.update(map[string][]*targetgroup.Group{"jr": {group("jr/0", []map[string]string{tgt("t1")})}}); err != nil {
+		res.Inconcl = err.Error()
+		return res
+	}
+	waitUp := func(id string) (int64, int64, bool) {
+		deadline := time.Now().Add(retryInterval + 10*time.Second)
+		for time.Now().Before(deadline) {
+			for h, t := range p.disc.ActiveTargetsByHash() {
+				if t.ShardTarget.Labels.Get("__param_id") != id {
+					continue
+				}
+				if st := p.exp.Get(h); st != nil && string(st.Health) == "up" {
+					return st.Series, st.TotalSeries, true
+				}
+			}
+			time.Sleep(20 * time.Millisecond)
+		}
+		return 0, 0, false
+	}
+	total := int64(nKeep + nA + nB)
+	if s, t, ok := waitUp("t1"); !ok {
+		res.Inconcl = "first target was not probed in time"
+		return res
+	} else if s != int64(nKeep+nB) || t != total {
+		res.Violate("C20/estimate-wrong", "before the reload: estimate %d/%d, the payload has %d kept of %d", s, t, nKeep+nB, total)
+	}
+	// the reload: other param value, stricter drop rule; same client settings
+	if err := p.cm.ReloadFromRaw([]byte(cfg("small", "drop_.*"))); err != nil {
+		res.Inconcl = "second reload: " + err.Error()
+		return res
+	}
+	if err := p.update(map[string][]*targetgroup.Group{"jr": {group("jr/0", []map[string]string{tgt("t1"), tgt("t2")})}}); err != nil {
+		res.Inconcl = err.Error()
+		return res
+	}
+	s, t, ok := waitUp("t2")
+	res.Execs = 2
+	res.AddStat("first_probes_after_a_reload_of_rules_and_params", 1)
+	if !ok {
+		res.Violate("C20/first-probe-missing", "a target discovered after a reload was not probed within interval + 10 s")
+		return res
+	}
+	if s != int64(nKeep) || t != total {
+		res.Violate("C20/estimate-wrong/after-reload", "a target first probed AFTER a reload that changed the job's metric relabel rules got the estimate %d/%d; under the rules now in force the payload has %d kept of %d (under the old rules: %d)", s, t, nKeep, total, nKeep+nB)
+	}
+	mu.Lock()
+	q := append([]string{}, queries["t2"]...)
+	mu.Unlock()
+	for _, m := range q {
+		if m != "small" {
+			res.Violate("C20/probe-with-stale-params", "the probe of a target first seen after the reload was sent with module=%q; the configuration now says module=small", m)
+			break
+		}
+	}
+	if len(res.Viol) > 0 {
+		res.Witness = map[string]interface{}{"kept": nKeep, "drop_a": nA, "drop_b": nB, "queries_t2": q}
+	}
+	return res
+}
